@@ -197,7 +197,7 @@ def from_xir_to_tdm(xir_prog: xir.Program) -> TDMProgram:
                     vals = sfpar.par_convert(op.params.values(), prog)
                     params = dict(zip(op.params.keys(), vals))
                     for key, val in params.items():
-                        if is_ptype(val):
+                        if isinstance(val, str) and is_ptype(val):
                             params[key] = p[int(val[1:])]
                     gate(**params) | regrefs  # pylint:disable=expression-not-assigned
                 else:
